@@ -214,9 +214,15 @@ where
 
     let lsh: usize = (base2k - k_rem) % base2k;
 
-    // All limbs of a that would fall outside of the limbs of res are discarded,
+    // Computes in place exactly what vec_znx_rsh computes with a = res.
+    // Top limbs of res that only receive the carry.
+    let res_end: usize = size.min(steps);
+    // Limbs of res that stay inside res after the shift.
+    let a_start: usize = size - res_end;
+
+    // All limbs of res that would fall outside of the limbs of res are discarded,
     // but the carry still need to be computed.
-    for j in 0..steps {
+    for j in 0..res_end {
         if j == 0 {
             ZNXARI::znx_normalize_first_step_carry_only(base2k, lsh, res.at(res_col, size - j - 1), carry);
         } else {
@@ -224,20 +230,36 @@ where
         }
     }
 
+    // If no limbs were discarded (k = 0), initialize carry to zero
+    if res_end == 0 {
+        ZNXARI::znx_zero(carry);
+    }
+
+    // If res is moved entirely below itself, the carry of res[0] sits `gap` limbs below
+    // the last limb of res: bring it up by normalizing `gap` (virtual) zero limbs. After
+    // ceil(64 / base2k) + 1 steps the carry has reached a fixed point of the step.
+    let gap: usize = steps - res_end;
+    if gap != 0 {
+        ZNXARI::znx_zero(tmp);
+        for _ in 0..gap.min((i64::BITS as usize).div_ceil(base2k) + 1) {
+            ZNXARI::znx_normalize_middle_step_carry_only(base2k, lsh, tmp, carry);
+        }
+    }
+
     // Continues with shifted normalization
-    for j in 0..size - steps {
-        ZNXARI::znx_copy(tmp, res.at(res_col, size - steps - j - 1));
+    for j in 0..a_start {
+        ZNXARI::znx_copy(tmp, res.at(res_col, a_start - j - 1));
         ZNXARI::znx_normalize_middle_step_assign(base2k, lsh, tmp, carry);
         ZNXARI::znx_copy(res.at_mut(res_col, size - j - 1), tmp);
     }
 
     // Propagates carry on the rest of the limbs of res
-    for j in 0..steps {
-        ZNXARI::znx_zero(res.at_mut(res_col, j));
-        if j == 0 {
-            ZNXARI::znx_normalize_final_step_assign(base2k, lsh, res.at_mut(res_col, steps - j - 1), carry);
+    for j in 0..res_end {
+        ZNXARI::znx_zero(res.at_mut(res_col, res_end - j - 1));
+        if j == res_end - 1 {
+            ZNXARI::znx_normalize_final_step_assign(base2k, lsh, res.at_mut(res_col, res_end - j - 1), carry);
         } else {
-            ZNXARI::znx_normalize_middle_step_assign(base2k, lsh, res.at_mut(res_col, steps - j - 1), carry);
+            ZNXARI::znx_normalize_middle_step_assign(base2k, lsh, res.at_mut(res_col, res_end - j - 1), carry);
         }
     }
 }
